@@ -16,6 +16,7 @@
 -/
 import Jb.Proofs.Engine
 import Jb.Proofs.Total
+import Jb.Proofs.SynthTotal
 
 set_option linter.unusedSectionVars false
 
@@ -98,5 +99,54 @@ theorem synth_total_frames (fx : Fix) (c : Condition K) (inp : EngineIn K) (h : 
   refine ⟨durs, w, h1, h4, ?_⟩
   rw [h5, ← h2]
   exact Nat.mul_le_mul_left _ (frames_ge_states durs h3)
+
+/-! ### from the voice files: totality of the whole library (`Jb/Model/Synth.lean`)
+
+  The hypothesis of the theorems above (`EngineWF`) speaks about what `Models` hands to the stages. The
+  theorems below put tree selection, voice interpolation, the header defaults and the setter history inside:
+  the hypothesis `Synth.VoicesWF` is about the *parsed voices and the weight vectors* only (2 or 3 streams,
+  log-F0 of length 1, odd low-pass length, ≥ 1 window, every tree walk ends in a PDF of the expected shape,
+  one weight per voice). -/
+
+/-- for every well-formed voice set, weights, setter history, label sequence and (with alignment) one time
+    pair per label: `Engine::synthesize` returns `frame_period × F` samples, one duration ≥ 1 per state -/
+theorem voices_synth_total [FromFile K] (fx : Fix) (big : K) (voices : List Hts.ParsedVoice) (iw : IW K)
+    (h : Synth.VoicesWF voices iw) (v0 : Hts.ParsedVoice) (hv0 : voices.head? = some v0) (ops : List (CondOp K))
+    (f : Condition K → Bool) (labels : List (List Char)) (times : List (K × K))
+    (halign : (Synth.condOf (K := K) v0 ops).alignment = true → times.length = labels.length) :
+    ∃ (durs : List Nat) (w : List K), Synth.synthesize fx big voices iw ops f labels times = .ok w ∧
+      w.length = (Synth.condOf (K := K) v0 ops).fperiod * durs.sum ∧
+      durs.length = labels.length * v0.global.nstates ∧ (∀ d ∈ durs, 1 ≤ d) :=
+  Synth.synthesize_total fx big voices iw h v0 hv0 ops f labels times halign
+
+/-- … so `F ≥ labels × states-per-phoneme` -/
+theorem voices_synth_frames [FromFile K] (fx : Fix) (big : K) (voices : List Hts.ParsedVoice) (iw : IW K)
+    (h : Synth.VoicesWF voices iw) (v0 : Hts.ParsedVoice) (hv0 : voices.head? = some v0) (ops : List (CondOp K))
+    (f : Condition K → Bool) (labels : List (List Char)) (times : List (K × K))
+    (halign : (Synth.condOf (K := K) v0 ops).alignment = true → times.length = labels.length) :
+    ∃ (durs : List Nat) (w : List K), Synth.synthesize fx big voices iw ops f labels times = .ok w ∧
+      w.length = (Synth.condOf (K := K) v0 ops).fperiod * durs.sum ∧
+      labels.length * v0.global.nstates ≤ durs.sum ∧
+      (Synth.condOf (K := K) v0 ops).fperiod * (labels.length * v0.global.nstates) ≤ w.length :=
+  Synth.synthesize_frames_ge fx big voices iw h v0 hv0 ops f labels times halign
+
+/-- an empty label list yields an empty waveform -/
+theorem voices_synth_empty [FromFile K] (fx : Fix) (big : K) (voices : List Hts.ParsedVoice) (iw : IW K)
+    (h : Synth.VoicesWF voices iw) (ops : List (CondOp K)) (f : Condition K → Bool) :
+    Synth.synthesize fx big voices iw ops f [] [] = .ok [] :=
+  Synth.synthesize_empty fx big voices iw h ops f
+
+/-- the hypotheses are satisfiable: a concrete one-state, two-stream voice (MSD log-F0 with GV) -/
+theorem voices_wf_nonvacuous [FromFile K] : Synth.VoicesWF (K := K) [Synth.Tiny.voice] Synth.Tiny.weights :=
+  Synth.Tiny.voicesWF
+
+/-- the shape clause is needed and the loader does not establish it: a voice whose stream lists more
+    windows (`STREAM_WIN`) than its PDFs were cut for (`NUM_WINDOWS`) loads, and synthesis of any label
+    reaches the index panic of `MlpgAdjust::create` (machine-checked on the model; replayed on the code in
+    DESIGN.md §9.8). Such a file is outside "supported voice configuration". -/
+theorem window_count_mismatch_panics [FromFile K] (fx : Fix) (big : K) (f : Condition K → Bool) (l : List Char) :
+    Synth.synthesize fx big [Synth.Tiny.badVoice] (Synth.Tiny.weights (K := K)) [] f [l] []
+      = .panic "mlpg_adjust/mod.rs:curr_stream[m]" :=
+  Synth.Tiny.badVoice_panics fx big f l
 
 end Jb.C01
